@@ -87,10 +87,11 @@ def _q17(ja, jb, jc, pi, force, answer, k):
         if sorted(map(str, cancels)) != want:
             return "cancel %s (job states %s, %d-th cancel command failing): cancel commands for %s, expected exactly %s" % (pats, [ST[j] for j in js], kk, sorted(map(str, cancels)), want)
         # every target that could not be cancelled is reported
-        out = "\n".join(str(x) for x in w.out)
+        lines = [str(x) for x in w.out]
         for nm in sel:
-            if nm not in ids and ("Target %s could not be cancelled" % nm) not in out:
-                return "never-submitted target %s was not reported" % nm
+            # reported = some echoed line other than the "Cancelling target <name>" announcement names it (wording is free)
+            if nm not in ids and not any((nm in ln.split() or (" " + nm + " ") in (" " + ln + " ")) and not ln.startswith("Cancelling target") for ln in lines):
+                return "never-submitted target %s was not reported (output: %s)" % (nm, lines[:6])
         # once the scheduler has carried out the cancellations, none of them is shown submitted/running
         if w.sim is not None:
             w.sim.fault_at = None
